@@ -74,16 +74,25 @@ class Bench:
         mod = sys.modules.get("pycomm3.cip_driver")
         rng = self.rng
         if mod is not None and hasattr(mod, "urandom"):
+            given = set()
+
             def urandom(n):
-                # what os.urandom may return, the rare values included: all ones, all zeros, values next to the top of the range
+                # what os.urandom may return, the rare values included: all ones, all zeros, values next to the top of the range -
+                # but never the same 4+ bytes twice on one bench: two drivers drawing the same 32-bit serial / connection id is a
+                # 2^-32 event the library need not survive (the target rightly refuses a duplicate connection triad)
                 r = rng.random()
                 if r < 0.10:
-                    return b"\xff" * n
-                if r < 0.16:
-                    return b"\x00" * n
-                if r < 0.24:
-                    return (rng.choice([0xFFFE, 0xFFFA, 0xFFF0, 0xFF00, 0x8000, 1])).to_bytes(2, "little") * (n // 2) + b"\xff" * (n % 2)
-                return bytes(rng.randrange(256) for _ in range(n))
+                    out = b"\xff" * n
+                elif r < 0.16:
+                    out = b"\x00" * n
+                elif r < 0.24:
+                    out = (rng.choice([0xFFFE, 0xFFFA, 0xFFF0, 0xFF00, 0x8000, 1])).to_bytes(2, "little") * (n // 2) + b"\xff" * (n % 2)
+                else:
+                    out = bytes(rng.randrange(256) for _ in range(n))
+                while n >= 4 and out in given:
+                    out = bytes(rng.randrange(256) for _ in range(n))
+                given.add(out)
+                return out
             mod.urandom = urandom
 
     def set_target(self, target, host=None, port=None):
